@@ -202,6 +202,7 @@ def _chain_cancel(ctx, rep, rule="R-FANOUT"):
     prog = ctx.prog
     cc = prog.fn("base:chain_cancel")
     ps, it = ctx.paths(cc, None, depth=1)
+    rep.require(len(cc.params) == 2 and not cc.vararg, "chain_cancel no longer has the shape chain_cancel(outer, inner): the rule 'the callback cancels the inner future iff the outer was cancelled' is stated for one inner future per call and has to be re-confirmed for %s(%s%s)" % (cc.name, ", ".join(cc.params), ", *" + cc.vararg if cc.vararg else ""))
     for p in ps:
         regs = [e for e in p.calls() if q.call_name(e) == "add_done_callback"]
         ok = len(regs) == 1 and q.recv(regs[0]) == ("param", cc.params[0])
